@@ -10,7 +10,8 @@ CONSTANTS THOROUGH,   \* larger cross products
           GEN,        \* print one CASE line per model
           PaySizes    \* payload lengths
 
-VARIABLES grp, cur
+VARIABLES grp, cur,
+          enc    \* Encode(cur) when cur is representable with a body of at most 600 bytes (computed once per model)
 
 NONE == [k |-> "none"]
 
@@ -54,6 +55,12 @@ ShapePaths ==
   {Std(<<1>>, 0, 0), Std(<<2>>, 0, 1), Std(<<1, 1>>, 1, 1), Std(<<1, 1, 1>>, 2, 2), Std(<<3, 2, 4>>, 1, 4),
    Std(<<63>>, 0, 62), Std(<<40, 40>>, 1, 63), Std(<<27, 27, 26>>, 2, 63), StdRsvFlags,
    Std(<<2, 2>>, 0, 3), Std(<<2, 2>>, 1, 0),
+   \* total hop-field counts around the 6-bit CurrHF boundary, split over 1, 2 and 3 segments, pointer first / last
+   Std(<<62>>, 0, 0), Std(<<62>>, 0, 61), Std(<<63>>, 0, 0),
+   Std(<<31, 31>>, 0, 0), Std(<<31, 31>>, 1, 61), Std(<<31, 32>>, 0, 0), Std(<<31, 32>>, 1, 62),
+   Std(<<32, 32>>, 0, 0), Std(<<32, 32>>, 1, 63), Std(<<40, 24>>, 0, 0), Std(<<40, 24>>, 1, 63), Std(<<1, 63>>, 1, 63),
+   Std(<<21, 21, 20>>, 0, 0), Std(<<21, 21, 20>>, 2, 61), Std(<<21, 21, 21>>, 2, 62),
+   Std(<<30, 30, 4>>, 0, 0), Std(<<30, 30, 4>>, 2, 63), Std(<<21, 21, 22>>, 1, 30), Std(<<62, 1, 1>>, 2, 63),
    OneHop(250), Uns(3, 0), Uns(4, 12), Uns(5, 4), Uns(255, 8), Uns(200, 984)}
   \cup (IF THOROUGH THEN {Std(<<a, b, c>>, 0, 0) : a \in {1, 2, 31}, b \in {1, 2, 21}, c \in {1, 2, 21}}
                           \cup {Std(<<a, b>>, 1, a) : a \in {1, 2, 62, 63}, b \in {1, 2, 18}}
@@ -137,11 +144,12 @@ GroupOf(g) ==
     [] OTHER -> GQuote
 
 -----------------------------------------------------------------------------
-Init == grp \in GroupIds /\ cur = NONE
+SmallRep(m) == Representable(m) /\ BodyLen(m.pl, HdrSize(m)) <= 600
+Init == grp \in GroupIds /\ cur = NONE /\ enc = <<>>
 Next == /\ cur = NONE
-        /\ \E m \in GroupOf(grp) : cur' = m
+        /\ \E m \in GroupOf(grp) : cur' = m /\ enc' = IF SmallRep(m) THEN Encode(m) ELSE <<>>
         /\ grp' = <<"done", 0>>
-Spec == Init /\ [][Next]_<<grp, cur>>
+Spec == Init /\ [][Next]_<<grp, cur, enc>>
 
 IsCase == cur # NONE
 
@@ -154,9 +162,9 @@ Expect(m) ==
       why |-> IF rep THEN "" ELSE Unrep(m),
       iv  |-> ImplWireValid(m),
       hdr |-> hdr, size |-> EncodedSize(m), blen |-> blen,
-      head |-> IF rep THEN PktHead(m) ELSE <<>>,
+      head |-> IF rep THEN (IF SmallRep(m) THEN SubSeq(enc, 1, Len(enc) - blen) ELSE PktHead(m)) ELSE <<>>,
       cks |-> IF rep /\ m.pl.k # "raw" THEN Checksum(m) ELSE -1,
-      full |-> IF rep /\ blen <= 64 THEN Encode(m) ELSE <<>>]
+      full |-> IF rep /\ blen <= 64 THEN enc ELSE <<>>]
 
 Emit == (GEN /\ IsCase) => PrintT(<<"CASE", ToJson([m |-> cur, e |-> Expect(cur)])>>)
 
@@ -165,15 +173,14 @@ InvNoSilentTruncation == IsCase => NoSilentTruncation(cur)
 InvSizeAnnounced      == IsCase => SizeAnnounced(cur)
 (* the closed-form checksum agrees with the explicit sum, and the spec's own encodings are canonical *)
 InvClosedForm ==
-  (IsCase /\ Representable(cur) /\ cur.pl.k # "raw" /\ BodyLen(cur.pl, HdrSize(cur)) <= 600) =>
-     L4ChecksumOK(Encode(cur), L4Proto(cur.pl))
+  (IsCase /\ SmallRep(cur) /\ cur.pl.k # "raw") => L4ChecksumOK(enc, L4Proto(cur.pl))
 PlainFlags(p) ==
   CASE p.k = "std" -> \A i \in 1..Len(p.segs) : p.segs[i].info.flags < 4 /\ \A j \in 1..Len(p.segs[i].hops) : p.segs[i].hops[j].flags < 4
     [] p.k = "onehop" -> p.info.flags < 4 /\ p.hops[1].flags < 4 /\ p.hops[2].flags < 4
     [] OTHER -> TRUE
 InvSelfCanonical ==
-  (IsCase /\ Representable(cur) /\ BodyLen(cur.pl, HdrSize(cur)) <= 600 /\ PlainFlags(cur.path)
+  (IsCase /\ SmallRep(cur) /\ PlainFlags(cur.path)
      /\ (cur.path.k = "std" => (cur.path.ci < Len(cur.path.segs) /\ cur.path.ch < SegLen(cur.path, 1) + SegLen(cur.path, 2) + SegLen(cur.path, 3)
                                  /\ SegLen(cur.path, 1) + SegLen(cur.path, 2) + SegLen(cur.path, 3) <= 64))) =>
-     Canonical(cur.pl.k, Encode(cur))
+     Canonical(cur.pl.k, enc)
 =============================================================================
